@@ -352,7 +352,7 @@ func runTF(c *hx.Ctx, t tfCase) bool {
 		idTok = "1"
 	}
 	by := "-"
-	dl := time.Now().Add(300 * time.Millisecond)
+	dl := time.Now().Add(2 * time.Second)
 	for by == "-" && idTok == "1" && time.Now().Before(dl) {
 		for i, n := range names {
 			if len(recsOf(n)) > 0 {
